@@ -38,18 +38,19 @@ ListPart(toks) == IF Len(toks) <= 2 THEN <<>> ELSE NoOws(SubSeq(toks, 3, Len(tok
 Elems(toks) ==
     LET s == ListPart(toks)
         bounds == {0, Len(s) + 1} \cup {i \in 1..Len(s) : s[i].k = "comma"}
-    IN { SubSeq(s, a + 1, b - 1) : <<a, b>> \in
-           {p \in bounds \X bounds : p[1] < p[2] /\ ~ \E c \in bounds : p[1] < c /\ c < p[2]} }
+        nxt(a) == CHOOSE b \in bounds : b > a /\ \A c \in bounds : c > a => b <= c
+    IN { SubSeq(s, a + 1, nxt(a) - 1) : a \in bounds \ {Len(s) + 1} }
 
 IsParam(e) == Len(e) = 3 /\ e[1].k = "name" /\ e[2].k = "eq" /\ e[3].k \in {"q", "b"}
 \* "name=" followed by nothing: a parameter with an empty value
 IsEmptyParam(e) == Len(e) = 2 /\ e[1].k = "name" /\ e[2].k = "eq"
 ElemOK(e) == e = <<>> \/ IsParam(e)
 
-\* values the header gives to parameter n (a set: more than one if the name is repeated)
-Vals(toks, n) ==
-    {e[3].s : e \in {x \in Elems(toks) : IsParam(x) /\ x[1].s = n}}
-    \cup {"" : e \in {x \in Elems(toks) : IsEmptyParam(x) /\ x[1].s = n}}
+\* values the elements es give to parameter n (a set: more than one if the name is repeated)
+ValsOf(es, n) ==
+    {e[3].s : e \in {x \in es : IsParam(x) /\ x[1].s = n}}
+    \cup {"" : e \in {x \in es : IsEmptyParam(x) /\ x[1].s = n}}
+Vals(toks, n) == ValsOf(Elems(toks), n)
 
 \* strictly well formed: every element an auth-param or empty, no name repeated with two values
 WellFormed(toks) ==
@@ -59,9 +60,10 @@ WellFormed(toks) ==
     /\ \A n \in Known : Cardinality(Vals(toks, n)) <= 1
 
 \* usable as X-Matrix credentials: every required parameter present with a non-empty value
+\* (with a repeated name: in one of the readings the grammar leaves open)
 Usable(toks) ==
     /\ SchemeOK(toks)
-    /\ \A n \in Required : Vals(toks, n) # {} /\ "" \notin Vals(toks, n)
+    /\ \A n \in Required : \E v \in Vals(toks, n) : v # ""
 
 \* what a parser may report for parameter n ("" = absent).  Where the grammar leaves the choice open
 \* (repeated name) any of the occurrences is allowed.
@@ -70,4 +72,12 @@ MayReport(toks, n, v) ==
     ELSE IF Vals(toks, n) = {} THEN v = "" ELSE v \in Vals(toks, n)
 
 TheVal(toks, n) == IF Vals(toks, n) = {} THEN "" ELSE CHOOSE v \in Vals(toks, n) : TRUE
+
+\* one reading of a header: is it X-Matrix credentials, are they usable, and the parameter values
+Read(toks) ==
+    LET es == Elems(toks)
+        val(n) == IF ValsOf(es, n) = {} THEN "" ELSE CHOOSE v \in ValsOf(es, n) : TRUE
+    IN [x |-> SchemeOK(toks),
+        usable |-> SchemeOK(toks) /\ \A n \in Required : \E v \in ValsOf(es, n) : v # "",
+        origin |-> val("origin"), destination |-> val("destination"), key |-> val("key"), sig |-> val("sig")]
 =============================================================================
